@@ -1045,4 +1045,223 @@ theorem append_wf {t : ObjectTree} (w : WF t) {obj arg : Nat} (hpre : appendPre 
     have L3 := fun j (hj : live t j = true) => (w.lP hj).lnx
     grind
 
+/-! ### appendAfter -/
+
+/-! the five writes of the insert case of `appendAfter(obj, arg, nextTo)` -/
+def ins1 (t : ObjectTree) (obj arg : Nat) : ObjectTree :=
+  setAt t arg fun a => { a with parentIndex := (slot t obj).index }
+def ins2 (t : ObjectTree) (arg nextTo : Nat) : ObjectTree :=
+  setAt t arg fun a => { a with prevSiblingIndex := (slot t nextTo).index }
+def ins3 (t : ObjectTree) (arg nextTo : Nat) : ObjectTree :=
+  setAt t arg fun a => { a with nextSiblingIndex := (slot t nextTo).nextSiblingIndex }
+def ins4 (t : ObjectTree) (arg : Nat) : ObjectTree :=
+  setAt t (slot t arg).nextSiblingIndex fun x => { x with prevSiblingIndex := (slot t arg).index }
+def ins5 (t : ObjectTree) (arg nextTo : Nat) : ObjectTree :=
+  setAt t nextTo fun n => { n with nextSiblingIndex := (slot t arg).index }
+
+/-- the state `appendAfter(obj, arg, nextTo)` produces in the insert case (`nextTo` is not last) -/
+def insertPure (t : ObjectTree) (obj arg nextTo : Nat) : ObjectTree :=
+  ins5 (ins4 (ins3 (ins2 (ins1 t obj arg) arg nextTo) arg nextTo) arg) arg nextTo
+
+@[simp] theorem size_ins1 (t : ObjectTree) (o a : Nat) : (ins1 t o a).pool.size = t.pool.size := by simp [ins1]
+@[simp] theorem size_ins2 (t : ObjectTree) (a n : Nat) : (ins2 t a n).pool.size = t.pool.size := by simp [ins2]
+@[simp] theorem size_ins3 (t : ObjectTree) (a n : Nat) : (ins3 t a n).pool.size = t.pool.size := by simp [ins3]
+@[simp] theorem size_ins4 (t : ObjectTree) (a : Nat) : (ins4 t a).pool.size = t.pool.size := by simp [ins4]
+@[simp] theorem size_ins5 (t : ObjectTree) (a n : Nat) : (ins5 t a n).pool.size = t.pool.size := by simp [ins5]
+
+theorem appendAfter_eq {t : ObjectTree} {obj arg nextTo : Nat} (ho : obj < t.pool.size) (ha : arg < t.pool.size)
+    (hn : nextTo < t.pool.size) (hm : Nx t nextTo ≠ INV) (hml : live t (Nx t nextTo) = true) (hna : nextTo ≠ arg) :
+    t.appendAfter obj arg nextTo = .ok (insertPure t obj arg nextTo) := by
+  unfold ObjectTree.appendAfter insertPure
+  have hm' : ¬ (slot t nextTo).nextSiblingIndex = InvalidIndex := hm
+  simp only [obj_eq hn, bind, Except.bind, hm', if_false, obj_eq ho]
+  have e1 : (t.upd arg fun a => { a with parentIndex := (slot t obj).index }) = .ok (ins1 t obj arg) := upd_eq _ ha
+  rw [e1]; simp only []
+  rw [obj_eq (by simpa using hn)]; simp only []
+  have e2 : ((ins1 t obj arg).upd arg fun a => { a with prevSiblingIndex := (slot (ins1 t obj arg) nextTo).index }) =
+      .ok (ins2 (ins1 t obj arg) arg nextTo) := upd_eq _ (by simpa using ha)
+  rw [e2]; simp only []
+  rw [obj_eq (by simpa using hn)]; simp only []
+  have e3 : ((ins2 (ins1 t obj arg) arg nextTo).upd arg fun a =>
+      { a with nextSiblingIndex := (slot (ins2 (ins1 t obj arg) arg nextTo) nextTo).nextSiblingIndex }) =
+      .ok (ins3 (ins2 (ins1 t obj arg) arg nextTo) arg nextTo) := upd_eq _ (by simpa using ha)
+  rw [e3]; simp only []
+  generalize hT3 : ins3 (ins2 (ins1 t obj arg) arg nextTo) arg nextTo = t3
+  have hs3 : t3.pool.size = t.pool.size := by rw [← hT3]; simp
+  have hnx3 : (slot t3 arg).nextSiblingIndex = Nx t nextTo := by
+    rw [← hT3]
+    simp only [ins3, ins2, ins1, Nx, slot_setAt', size_setAt, apply_ite Obj.nextSiblingIndex, ite_self]
+    grind
+  have hl3 : live t3 (Nx t nextTo) = true := by
+    rw [← hT3]
+    simp only [ins3, ins2, ins1]
+    rw [live_keep _ _ _ _ (by keep_tac), live_keep _ _ _ _ (by keep_tac), live_keep _ _ _ _ (by keep_tac)]
+    exact hml
+  rw [obj_eq (by omega)]; simp only []
+  rw [hnx3, objectAt_live hl3, deref_some]; simp only []
+  have e4 : (t3.upd (Nx t nextTo) fun x => { x with prevSiblingIndex := (slot t3 arg).index }) = .ok (ins4 t3 arg) := by
+    rw [upd_eq _ (live_lt hl3)]; simp only [ins4, hnx3]
+  rw [e4]; simp only []
+  rw [obj_eq (by simp; omega)]; simp only []
+  have e5 : ((ins4 t3 arg).upd nextTo fun n => { n with nextSiblingIndex := (slot (ins4 t3 arg) arg).index }) =
+      .ok (ins5 (ins4 t3 arg) arg nextTo) := upd_eq _ (by simp; omega)
+  rw [e5]
+
+theorem insertPure_spec {t : ObjectTree} {obj arg nextTo : Nat}
+    (ho : obj < t.pool.size) (ha : arg < t.pool.size) (hn : nextTo < t.pool.size)
+    (hio : (slot t obj).index = obj) (hia : (slot t arg).index = arg) (hin : (slot t nextTo).index = nextTo)
+    (hml : Nx t nextTo < t.pool.size) (hna : nextTo ≠ arg) (hma : Nx t nextTo ≠ arg) (hmn : Nx t nextTo ≠ nextTo) :
+    (∀ x, P (insertPure t obj arg nextTo) x = if x = arg then obj else P t x) ∧
+    (∀ x, Pv (insertPure t obj arg nextTo) x =
+      if x = arg then nextTo else if x = Nx t nextTo then arg else Pv t x) ∧
+    (∀ x, Nx (insertPure t obj arg nextTo) x =
+      if x = arg then Nx t nextTo else if x = nextTo then arg else Nx t x) ∧
+    (∀ x, Fi (insertPure t obj arg nextTo) x = Fi t x) ∧
+    (∀ x, La (insertPure t obj arg nextTo) x = La t x) := by
+  refine ⟨?_, ?_, ?_, ?_, ?_⟩ <;> intro x <;>
+    simp only [insertPure, ins1, ins2, ins3, ins4, ins5, P, Pv, Nx, Fi, La, slot_setAt', size_setAt,
+      apply_ite Obj.nextSiblingIndex, apply_ite Obj.prevSiblingIndex, apply_ite Obj.parentIndex,
+      apply_ite Obj.firstArgIndex, apply_ite Obj.lastArgIndex, apply_ite Obj.index, hio, hia, hin, ite_self] at * <;>
+    grind
+
+theorem insertPure_frame (t : ObjectTree) (obj arg nextTo : Nat) :
+    (insertPure t obj arg nextTo).pool.size = t.pool.size ∧
+    (insertPure t obj arg nextTo).freeListHeadIndex = t.freeListHeadIndex ∧
+    (∀ x, live (insertPure t obj arg nextTo) x = live t x) ∧
+    (∀ x, (slot (insertPure t obj arg nextTo) x).index = (slot t x).index) ∧
+    (∀ x, (slot (insertPure t obj arg nextTo) x).name = (slot t x).name) := by
+  refine ⟨by simp [insertPure], by simp [insertPure, ins1, ins2, ins3, ins4, ins5], ?_, ?_, ?_⟩
+  · intro x
+    simp only [insertPure, ins1, ins2, ins3, ins4, ins5]
+    rw [live_keep _ _ _ _ (by keep_tac), live_keep _ _ _ _ (by keep_tac), live_keep _ _ _ _ (by keep_tac),
+      live_keep _ _ _ _ (by keep_tac), live_keep _ _ _ _ (by keep_tac)]
+  · intro x; simp only [insertPure, ins1, ins2, ins3, ins4, ins5, slot_setAt', apply_ite Obj.index, ite_self]
+  · intro x; simp only [insertPure, ins1, ins2, ins3, ins4, ins5, slot_setAt', apply_ite Obj.name, ite_self]
+
+theorem insert_loc {t t' : ObjectTree} (w : WF t) {obj arg nextTo : Nat}
+    (ho : live t obj = true) (ha : live t arg = true) (hn : live t nextTo = true)
+    (hp : P t arg = INV) (hpn : P t nextTo = obj) (hm : Nx t nextTo ≠ INV) (hoa : obj ≠ arg)
+    (hlive : ∀ x, live t' x = live t x)
+    (hP : ∀ x, P t' x = if x = arg then obj else P t x)
+    (hPv : ∀ x, Pv t' x = if x = arg then nextTo else if x = Nx t nextTo then arg else Pv t x)
+    (hNx : ∀ x, Nx t' x = if x = arg then Nx t nextTo else if x = nextTo then arg else Nx t x)
+    (hFi : ∀ x, Fi t' x = Fi t x)
+    (hLa : ∀ x, La t' x = La t x) :
+    ∀ i, live t' i = true → LocalP t' i := by
+  intro i hi
+  rw [hlive] at hi
+  have hinv : ∀ j, live t j = true → j ≠ INV := fun j hj => live_ne_INV w.size_le hj
+  have L1 := fun j (hj : live t j = true) => (w.lP hj).lp
+  have L2 := fun j (hj : live t j = true) => (w.lP hj).lpv
+  have L3 := fun j (hj : live t j = true) => (w.lP hj).lnx
+  have L4 := fun j (hj : live t j = true) => (w.lP hj).lfi
+  have L5 := fun j (hj : live t j = true) => (w.lP hj).lla
+  have C1 := fun j (hj : live t j = true) => (w.lP hj).det
+  have C2 := fun j (hj : live t j = true) => (w.lP hj).pv
+  have C3 := fun j (hj : live t j = true) => (w.lP hj).nx
+  have C4 := fun j (hj : live t j = true) => (w.lP hj).first
+  have C5 := fun j (hj : live t j = true) => (w.lP hj).last
+  have C6 := fun j (hj : live t j = true) => (w.lP hj).fi
+  have C7 := fun j (hj : live t j = true) => (w.lP hj).la
+  have C8 := fun j (hj : live t j = true) => (w.lP hj).ends
+  constructor
+  all_goals (simp only [hP, hPv, hNx, hFi, hLa, hlive])
+  all_goals grind
+
+/-- **appendAfter** under its contract: succeeds, preserves `WF`; links change as stated -/
+theorem appendAfter_wf {t : ObjectTree} (w : WF t) {obj arg nextTo : Nat}
+    (hpre : appendAfterPre t obj arg nextTo = true) :
+    ∃ t', t.appendAfter obj arg nextTo = .ok t' ∧ WF t' ∧
+      t'.pool.size = t.pool.size ∧ (∀ x, live t' x = live t x) ∧ (∀ x, (slot t' x).name = (slot t x).name) ∧
+      (∀ x, P t' x = if x = arg then obj else P t x) ∧
+      (∀ x, Pv t' x = if x = arg then nextTo else if x = Nx t nextTo ∧ Nx t nextTo ≠ INV then arg else Pv t x) ∧
+      (∀ x, Nx t' x = if x = arg then Nx t nextTo else if x = nextTo then arg else Nx t x) ∧
+      (∀ x, Fi t' x = Fi t x) ∧
+      (∀ x, La t' x = if x = obj ∧ Nx t nextTo = INV then arg else La t x) := by
+  have hpre0 := hpre
+  simp only [appendAfterPre, Bool.and_eq_true, decide_eq_true_eq] at hpre
+  obtain ⟨⟨hap, hn⟩, hpn⟩ := hpre
+  have hap0 := hap
+  simp only [appendPre, Bool.and_eq_true, decide_eq_true_eq, Bool.not_eq_true'] at hap
+  obtain ⟨⟨⟨ho, ha⟩, hp⟩, hanc⟩ := hap
+  have lpn := w.lP hn
+  have lpa := w.lP ha
+  have hinv : ∀ j, live t j = true → j ≠ INV := fun j hj => live_ne_INV w.size_le hj
+  have hnanc : ¬ anc t arg obj := w.not_anc ho hanc
+  have hoa : obj ≠ arg := fun e => hnanc (by rw [e]; exact w.anc_self ha)
+  have hna : nextTo ≠ arg := by
+    intro e; rw [e, hp] at hpn; exact hinv _ ho hpn.symm
+  by_cases hm : Nx t nextTo = INV
+  · -- `nextTo` is the last argument: a plain append
+    have hla : La t obj = nextTo := by
+      have := lpn.last (by rw [hpn]; exact hinv _ ho) hm
+      rwa [hpn] at this
+    obtain ⟨t', he, w', hsz, hlive, hname, hP, hPv, hNx, hFi, hLa⟩ := append_wf w hap0
+    refine ⟨t', ?_, w', hsz, hlive, hname, hP, ?_, ?_, ?_, ?_⟩
+    · have hm' : (slot t nextTo).nextSiblingIndex = InvalidIndex := hm
+      simp only [ObjectTree.appendAfter, obj_eq (live_lt hn), bind, Except.bind, hm', if_true]
+      exact he
+    · intro x; rw [hPv, hla]; simp [hm]
+    · intro x; rw [hNx, hla, hm]
+      have : nextTo ≠ INV := hinv _ hn
+      simp [this]
+    · intro x; rw [hFi, hla]
+      have : nextTo ≠ INV := hinv _ hn
+      simp [this]
+    · intro x; rw [hLa]; simp [hm]
+  · -- insertion between `nextTo` and its next sibling
+    have hml : live t (Nx t nextTo) = true := lpn.lnx.resolve_left hm
+    obtain ⟨rk, hrk⟩ := w.rank
+    obtain ⟨pos, hpos⟩ := w.order
+    have hma : Nx t nextTo ≠ arg := by
+      intro e
+      have := (lpn.nx hm).2
+      rw [e, hp, hpn] at this
+      exact hinv _ ho this.symm
+    have hmn : Nx t nextTo ≠ nextTo := by
+      intro e
+      have := hpos _ hn hm
+      rw [e] at this; omega
+    refine ⟨insertPure t obj arg nextTo,
+      appendAfter_eq (live_lt ho) (live_lt ha) (live_lt hn) hm hml hna, ?_⟩
+    obtain ⟨hP, hPv, hNx, hFi, hLa⟩ := insertPure_spec (live_lt ho) (live_lt ha) (live_lt hn)
+      (w.index_eq _ (live_lt ho)) (w.index_eq _ (live_lt ha)) (w.index_eq _ (live_lt hn))
+      (live_lt hml) hna hma hmn
+    obtain ⟨hsz, hfh, hlive, hidx, hname⟩ := insertPure_frame t obj arg nextTo
+    generalize insertPure t obj arg nextTo = T at *
+    refine ⟨?_, hsz, hlive, hname, hP, ?_, hNx, hFi, ?_⟩
+    · apply w.transfer hsz hfh hlive hidx
+      · intro x hx
+        rw [hNx]
+        have h1 : x ≠ arg := fun e => by rw [e, ha] at hx; cases hx
+        have h2 : x ≠ nextTo := fun e => by rw [e, hn] at hx; cases hx
+        simp [h1, h2]
+      · exact insert_loc w ho ha hn hp hpn hm hoa hlive hP hPv hNx hFi hLa
+      · classical
+        refine ⟨fun x => if anc t arg x then rk x + rk obj + 1 else rk x, fun i hl hpi => ?_⟩
+        rw [hlive] at hl
+        rw [hP] at hpi ⊢
+        by_cases hi : i = arg
+        · subst hi
+          simp only [if_true, hnanc, if_false, w.anc_self ha]
+          omega
+        · simp only [hi, if_false] at hpi ⊢
+          have := hrk i hl hpi
+          have hst := w.anc_step (a := arg) hl hi
+          by_cases h : anc t arg i
+          · simp only [h, hst.1 h, if_true]; omega
+          · have h2 : ¬ anc t arg (P t i) := fun h' => h (hst.2 h')
+            simp only [h, h2, if_false]; exact this
+      · refine ⟨fun x => if x = arg then 2 * pos nextTo + 1 else 2 * pos x, fun i hl hni => ?_⟩
+        rw [hlive] at hl
+        rw [hNx] at hni ⊢
+        have C2 := fun j (hj : live t j = true) => (w.lP hj).pv
+        have C3 := fun j (hj : live t j = true) => (w.lP hj).nx
+        have L3 := fun j (hj : live t j = true) => (w.lP hj).lnx
+        have hpm := hpos _ hn hm
+        have hpva := (lpa.det hp).1
+        grind
+    · intro x; rw [hPv]; simp [hm]
+    · intro x; rw [hLa]; simp [hm]
+
 end Firefly.C13
